@@ -258,7 +258,9 @@ pub fn run_c17(env: &Env) -> Report {
             if !word.chars().all(crate::code_ok) { continue; }
             for (li, lead) in wraps.iter().enumerate() {
                 for (ti, trail) in wraps.iter().enumerate() {
-                    if (li * 31 + ti * 17 + wi) % (if env.quick() { 24 } else { 8 }) != ui % (if env.quick() { 24 } else { 8 }) { continue; }
+                    // quick: 1/24 of the (≤2 x ≤2) wrapping grid per unit; thorough: 1/96 of the (≤3 x ≤3) grid per unit and word
+                    let m = if env.quick() { 24 } else { 96 };
+                    if (li * 31 + ti * 17 + wi) % m != ui % m { continue; }
                     let txt = format!("{}{}{}", lead, word, trail);
                     if txt.is_empty() || !txt.chars().all(crate::code_ok) { continue; }
                     if fixed && !txt.chars().all(|c| "kahoi'\"(.:".contains(c)) { continue; }
